@@ -15,6 +15,9 @@ def main() -> int:
     ap.add_argument("--jobs", type=int, default=int(os.environ.get("PYVC_JOBS", "16")))
     a = ap.parse_args()
     seed = int(os.environ.get("VERIF_SEED", "0") or 0)
+    if a.tier == "thorough":
+        # the thorough tier has larger units (three dict records, all width pairs ...)
+        os.environ.setdefault("PYVC_UNIT_TIMEOUT", "2400")
     sys.setrecursionlimit(20000)
     try:
         mod = importlib.import_module("contracts." + a.prop.lower())
